@@ -65,7 +65,7 @@ func runC13(c *Ctx, r *Report) {
 	r.Rule("C13/precedence", "the driver failure list is used exactly when the operation list is empty, and that list is given to NewResponse", 6)
 	r.Rule("C13/mark", "Record marks failed exactly on a non-empty match of the recorded output; the scan helper returns the first contained string and tests every element until a match", 4)
 	r.Rule("C13/op-options-applied", "generic.NewOperation applies the full per-operation option list (stop-on-failed, failure strings) in order", 1)
-	r.Rule("C13/opts-forwarded", "every generic- and network-driver operation hands its full per-operation option list to each option-taking library callee", 9)
+	r.Rule("C13/opts-forwarded", "every generic- and network-driver operation hands its full per-operation option list to each option-taking library callee", 5)
 	r.Rule("C13/stop", "every response appended before the stop test; early success only under StopOnFailed && Failed != nil; no command after it", 2)
 	r.Rule("C13/aggregate", "AppendResponse appends on every path and records member failures; SendConfig copies Failed and joins members' results", 4)
 	r.Rule("C13/options", "WithStopOnFailed / WithFailedWhenContains store the setting they name", 4)
